@@ -567,7 +567,15 @@ impl V {
                     TupName::Anon => None,
                     TupName::Named(n) => Some(n.clone()),
                     TupName::Inherit => match (&inherited, fields.first()) {
-                        (Some(n), Some(Field::Spread(_))) => n.clone(),
+                        (Some(n), Some(Field::Spread(first))) => {
+                            // `x[..., …]`: inside the brackets a bare `...` means "x again", so a later spread
+                            // of the FLOWING value cannot be written there — the printed source would denote
+                            // another program
+                            if first.is_some() && fields.iter().skip(1).any(|f| matches!(f, Field::Spread(None))) {
+                                return Err("spread of the flowing value inside `x[..., …]` (not expressible: `...` there means x)".into());
+                            }
+                            n.clone()
+                        }
                         _ => return Err("inherited tuple name without a leading spread".into()),
                     },
                 };
